@@ -154,7 +154,19 @@ func C09_upgrade_template() {
 			connLine = []byte("Connection: a,b,c,d, upgrade")
 		}
 	case 6: // Sec-WebSocket-Version
-		switch vChoose("version", 4) {
+		switch vChoose("version", 6) {
+		case 4: // three arbitrary bytes: never the two bytes "13" (leading zeros included)
+			v := vBytes("ver3", 3)
+			for _, c := range v {
+				vAssume(vAnd(c != '\r', vAnd(c != '\n', vAnd(c != ' ', c != '\t'))))
+			}
+			verLine = append([]byte("Sec-WebSocket-Version: "), v...)
+			compliant = false
+			wantStatus = 426
+		case 5: // a decimal number equal to 13 modulo 2^64
+			verLine = []byte("Sec-WebSocket-Version: 18446744073709551629")
+			compliant = false
+			wantStatus = 426
 		case 0:
 			drop = 3
 			compliant = false
